@@ -59,7 +59,9 @@ func foldModel(block []entry, env *envx.Env, prefer bool) (out []entry, errAt in
 	return block, -1, nil
 }
 
-var names = []string{"A", "B", "C", "D", "a", "b", "R1", "R2", "r1", "PATH", "UNSET"}
+// (names are whatever strings the block uses as keys: "opt=level" or "my var" cannot be referenced
+// as $NAME, but they are entries like any other - rewritten, recorded, written back to the caller)
+var names = []string{"A", "B", "C", "D", "a", "b", "R1", "R2", "r1", "PATH", "UNSET", "opt=level", "my var", "x.y", "1ST", "é"}
 
 type gstats struct{ fwd, chain, overlapPrefer, caseOnly, dynName, tombstones bool }
 
